@@ -151,16 +151,23 @@ def run_check(mod, tier: str, seed: int) -> int:
 
     # 2. correspondence + monitors
     cases, layers = [], {}
+    gen_errors = []
     if ok_model:
         for name, fn in (('corpus', getattr(mod, 'corpus', None)),
                          ('exhaustive', getattr(mod, 'gen_exhaustive', None)),
                          ('random', getattr(mod, 'gen_random', None))):
             if fn is None:
                 continue
-            cs = fn(tier, seed) if name != 'corpus' else fn()
+            try:
+                cs = fn(tier, seed) if name != 'corpus' else fn()
+            except BaseException as e:          # a generator that drives the real code (schedule DFS) died:
+                gen_errors.append((name, ''.join(traceback.format_exception(type(e), e, e.__traceback__))[-2500:]))
+                cs = []                          # the implementation cannot be driven -> reported below, never a crash
             layers[name] = len(cs)
             cases += cs
         obs, res = evaluate(mod, cases)
+        for name, tb in gen_errors:
+            res['errors'].append((f'generator {name} could not drive the implementation', tb))
     else:
         obs, res = [], dict(mismatch=[], bad=[], nontrivial=[], errors=[('model build', out_model[-3000:])], harness_errors=[], files=0)
 
@@ -210,7 +217,12 @@ def run_check(mod, tier: str, seed: int) -> int:
         # b. directed search with the monitor as oracle
         found = None
         if ok_model and hasattr(mod, 'gen_search'):
-            scs = mod.gen_search(tier, seed)
+            try:
+                scs = mod.gen_search(tier, seed)
+            except BaseException as e:
+                scs = []
+                res['errors'].append(('generator search could not drive the implementation',
+                                      ''.join(traceback.format_exception_only(type(e), e))[-1500:]))
             sobs, sres = evaluate(mod, scs, tag='_srch')
             fresh = [i for i in sres['bad'] if classify(scs[i], sobs[i], 'monitor')]
             if fresh:
